@@ -320,7 +320,8 @@ def run_shard(shard, rec):
     elif shard["part"] == "long":
         kind, length = shard["kind"], shard["length"]
         alpha = V.alphabet(kind, "key")
-        core = ["aggregate-core", "count", "split", "modify", "helper:5", "helper:6", "helper:10"]
+        # (long groups hold several missing payload values: shorthand and lambda must still agree, e.g. count_unique)
+        core = ["aggregate-core", "count", "split", "modify", "helper:4", "helper:5", "helper:6", "helper:10", "helper:11", "helper:17"]
         for p in range(1, shard["period"] + 1):
             for pat in itertools.product(alpha, repeat=p):
                 toks = [pat[i % p] for i in range(length)]
